@@ -49,6 +49,8 @@ def check(ctx, only_h1: bool = False, h1_rule: str = "C13-H1") -> None:
     if not only_h1:
         ctx.rule("C13-H5", "confidence_threshold is consumed once; benchmark uses the same >=", 3)
     rule_h10(ctx)
+    if not only_h1:
+        rule_h11(ctx)
     solved, issue, conf = pl.solved_col.text, pl.issue_col.text, texts(ctx.balancer.get("__confidence_col"))
     conf_store = [s for s in st.stores if s.keytexts & conf and s.func is f]
     ctx.require(conf_store, "predict no longer stores the confidence column")
@@ -373,6 +375,74 @@ def check(ctx, only_h1: bool = False, h1_rule: str = "C13-H1") -> None:
     from . import c03
 
     c03.rule_v8(ctx, pl, "C13-H8")
+
+
+def rule_h11(ctx) -> None:
+    """Every row solved by the MCS method is scored and put to the threshold test.  The rows that reach the scoring loop
+    are selected from the stage's input by `solved_by == <MCS method>` alone: a further filter on row data (a value the
+    row already carries in the confidence column - input columns pass through preprocessing -, a flag, the issue) lets
+    rows keep `solved` without ever being compared with the threshold."""
+    from ..pipeline import Pipeline
+
+    ctx.rule("C13-H11", "the rows that reach the scoring loop are selected by solved_by == method alone", 1)
+    prog = ctx.prog
+    f = prog.func(PREDICT)
+    pl = Pipeline(ctx)
+    st = next((x for x in pl.stages if x.callee.qualname == PREDICT), None)
+    ctx.require(st is not None and st.env is not None, "predict is not a stage of __run_pipeline")
+    conf = texts(ctx.balancer.get("__confidence_col"))
+    by = texts(st.inst.get("solved_by_col")) if st.inst is not None else set()
+    ctx.require(by, "ConfidencePredictor lost its solved_by_col option")
+    loops = []
+    for s_ in st.stores:
+        if s_.func is f and s_.keytexts & conf:
+            cur = getattr(s_.node, "_parent", None)
+            while cur is not None and cur is not f.node:
+                if isinstance(cur, ast.For):
+                    loops.append(cur)
+                    break
+                cur = getattr(cur, "_parent", None)
+    ctx.require(loops, "the confidence column is no longer stored inside a loop over the rows of predict")
+    rows_p = f.params[1] if len(f.params) > 1 else None
+
+    def selection_only(cond, var) -> bool:
+        for x in ast.walk(cond):
+            if isinstance(x, ast.Subscript) and not isinstance(x.slice, ast.Slice):
+                if not (texts(ctx.ev.eval(x.slice, st.env)) <= by):
+                    return False
+            elif isinstance(x, ast.Call):
+                if isinstance(x.func, ast.Attribute) and x.func.attr in ("keys",) and not x.args:
+                    continue
+                if isinstance(x.func, ast.Attribute) and x.func.attr == "get" and x.args and texts(ctx.ev.eval(x.args[0], st.env)) <= by:
+                    continue
+                return False
+        return True
+
+    for lp in loops:
+        it = lp.iter
+        names = [a.id for a in (it.args if isinstance(it, ast.Call) and isinstance(it.func, ast.Name) and it.func.id in ("zip", "enumerate") else [it]) if isinstance(a, ast.Name)]
+        bad, seen, work = None, set(), list(names)
+        while work:
+            nm = work.pop()
+            if nm in seen:
+                continue
+            seen.add(nm)
+            for stmt, v, _i in assignments_to(f, nm):
+                if isinstance(v, (ast.ListComp, ast.GeneratorExp)):
+                    for g in v.generators:
+                        for c in g.ifs:
+                            if not selection_only(c, g.target):
+                                bad = bad or (c, nm)
+                        work += [x.id for x in ast.walk(g.iter) if isinstance(x, ast.Name)]
+                elif isinstance(v, ast.Call) and isinstance(v.func, ast.Name) and v.func.id == "filter":
+                    bad = bad or (v, nm)
+                elif isinstance(v, ast.Name):
+                    work.append(v.id)
+                elif isinstance(v, ast.Call) and isinstance(v.func, ast.Name) and v.func.id in ("list", "tuple") and v.args:
+                    work += [x.id for x in ast.walk(v.args[0]) if isinstance(x, ast.Name)]
+        ctx.instance("C13-H11", "predict: rows of the scoring loop come from %s by method selection only: %s" % (sorted(seen), bad is None), f.loc(lp), ok=bad is None)
+        if bad is not None:
+            ctx.finding("C13-H11", "confidence_prediction.ConfidencePredictor.predict:rows-withheld-from-threshold", f.loc(bad[0]), "the rows that are scored and compared with the threshold are filtered by %s on top of solved_by == method: an MCS-solved row that fails this test (e.g. one that arrives with a value in the confidence column; input columns pass through) stays solved whatever the threshold" % unparse(bad[0])[:60])
 
 
 def rule_h10(ctx) -> None:
